@@ -514,6 +514,13 @@ def _timedelta(ctx):
                             got[letter] = (k, A.fmt(v), A.fmt(letters[0][1]))
     want = {"w": "weeks", "d": "days", "h": "hours", "m": "minutes",
             "s": "seconds"}
+    if not got:
+        # not the letter-by-letter comparison chain the rule can read (a
+        # table-driven rewrite, say): no verdict rather than a guess
+        run.soft_error("C09.R7: timedelta() does not compare the unit "
+                       "letter with literals on its paths; the unit table "
+                       "cannot be recovered")
+        return
     ok = {k: v[0] for k, v in got.items()} == want
     win = all(v[1].endswith("[:-1])") and v[2].endswith("[-1]")
               for v in got.values())
